@@ -29,7 +29,10 @@ CONFIGS = {
     "default": {},
     "dyadic-eps": {"EPSILON": "0.0001220703125", "NUMERIC_PRECISION": "6"},
     "coarse": {"EPSILON": "0.01", "NUMERIC_PRECISION": "2"},
+    "exponent-notation": {"EPSILON": "2.5e-3"},            # the settings are floats: any text float() reads
 }
+CONFIGS_THOROUGH = dict(CONFIGS, **{"tiny-eps": {"EPSILON": "1E-6", "NUMERIC_PRECISION": "8"},
+                                    "signed": {"EPSILON": "+0.001", "NUMERIC_PRECISION": "3"}})
 
 EPS = Fraction(float(os.environ.get("EPSILON", 0.0001)))
 DIGITS = int(os.environ.get("NUMERIC_PRECISION", 4))
